@@ -13,6 +13,11 @@ def S(i, t):
     return ("sld", i, t)
 
 
+# payloads the determinant of a kind provably varies with, for kinds without a closed form in the scalar grammar
+DET_DEPENDS = {"Householder": ("vec", "beta")}
+DET_WHY = {"Householder": "det(I - beta v v^H) = 1 - beta v^H v: scaling v changes it unless beta = 0"}
+
+
 def oracle(kind, a):
     """(sign, logabs) the determinant algebra requires, in the rule's own parameter name `a`"""
     N = ("fprod", ("size", VAR))
@@ -137,6 +142,22 @@ def rule_for_kind(rep, construct, kind, a, v, loc):
             rep.decide(True if dep else None, "dependence", construct, f"returns {show(snorm(v))}", locs=[loc])
         return
     want = oracle(kind, a)
+    if want is None and kind in DET_DEPENDS:
+        # no closed form in the scalar grammar, but the determinant is known to vary with each of these payloads
+        # (Householder: det(I - beta v v^H) = 1 - beta v^H v): a result that never reads one of them is constant in it
+        def reads(t, name):
+            if isinstance(t, tuple):
+                return any(reads(x, name) for x in t)
+            return isinstance(t, str) and (t == name or t.startswith(name + ".") or t.startswith(name + "["))
+        missing = [p for p in DET_DEPENDS[kind] if not reads(v, f"{a}.{p}")]
+        if missing and not has_opaque(v):
+            rep.refuted("dependence", construct, f"returns {show(snorm(v))}: it never reads {', '.join(f'{a}.{p}' for p in missing)}, but the determinant of a {kind} varies with "
+                        f"it ({DET_WHY[kind]})", detail="payload:" + ",".join(missing), locs=[loc])
+        else:
+            rep.decide(None if missing else True, "dependence", construct, f"returns {show(snorm(v))}; reads every payload the determinant depends on ({', '.join(DET_DEPENDS[kind])}); "
+                       f"the closed form itself ({DET_WHY[kind]}) is outside the scalar grammar", locs=[loc])
+            sign_domain(rep, construct, v, loc, krylov=False)
+        return
     if want is None:
         rep.undecided("rule-algebra", construct, f"no oracle entry for {kind}", locs=[loc])
         return
